@@ -145,7 +145,7 @@ func runCase(c Case) (coq string, nontrivial bool, tags []string) {
 
 // ---------- generators ----------
 
-var names = []string{"a", "b", "c", "ab", "a.b"}
+var names = []string{"a", "b", "c", "ab", "a.b", "abc"}
 
 func genComp(r *rand.Rand) string {
 	switch x := r.Intn(100); {
@@ -207,6 +207,88 @@ func genPath(r *rand.Rand) string {
 		parts[i] = names[r.Intn(len(names))]
 	}
 	return strings.Join(parts, "/")
+}
+
+// dirPaths lists the directories of a tree with their nodes.
+func dirPaths(t *igntree.Node) (paths []string, nodes []*igntree.Node) {
+	ps, ns := t.Paths()
+	for i, p := range ps {
+		if ns[i].K == "dir" {
+			paths = append(paths, p)
+			nodes = append(nodes, ns[i])
+		}
+	}
+	return
+}
+
+func validOrNil(raws []string) []string {
+	if _, err := dockerignore.VerifNewMatcher(raws); err != nil {
+		return nil
+	}
+	return raws
+}
+
+// genReinclude builds a pattern list around one directory D of the tree: a
+// pattern excluding D, a "!" pattern beneath D (so that D is traversed under an
+// ignore mask), and a few random patterns after them.
+func genReinclude(r *rand.Rand, t *igntree.Node) []string {
+	paths, nodes := dirPaths(t)
+	if len(paths) == 0 {
+		return nil
+	}
+	i := r.Intn(len(paths))
+	d, node := paths[i], nodes[i]
+	excl := d
+	switch r.Intn(4) {
+	case 0:
+		parts := strings.Split(d, "/")
+		parts[len(parts)-1] = parts[len(parts)-1][:1] + "*"
+		excl = strings.Join(parts, "/")
+	case 1:
+		excl = "**/" + d[strings.LastIndex(d, "/")+1:]
+	}
+	keep := "keep"
+	if kids := node.SortedNames(); len(kids) > 0 && r.Intn(3) > 0 {
+		keep = kids[r.Intn(len(kids))]
+	}
+	out := []string{excl, "!" + d + "/" + keep}
+	for k := r.Intn(3); k > 0; k-- {
+		out = append(out, genPattern(r))
+	}
+	return validOrNil(out)
+}
+
+// genPrefixSibling builds a pattern list in which a "!" pattern starts with
+// the characters of an excluded directory's path without lying beneath it
+// (a sibling whose name extends the directory's name), together with a
+// wildcard "!" pattern that matches something inside the excluded directory.
+func genPrefixSibling(r *rand.Rand, t *igntree.Node) []string {
+	paths, nodes := dirPaths(t)
+	if len(paths) == 0 {
+		return nil
+	}
+	i := r.Intn(len(paths))
+	d, node := paths[i], nodes[i]
+	base := d[strings.LastIndex(d, "/")+1:]
+	excl := d
+	if r.Intn(2) == 0 {
+		excl = d + "*"
+	}
+	sibling := d + []string{"b", "c", "-x", ".b", "bc"}[r.Intn(5)]
+	inner := "x"
+	if kids := node.SortedNames(); len(kids) > 0 {
+		inner = kids[r.Intn(len(kids))]
+	}
+	wild := []string{"!**/" + inner, "!*/" + inner, "!" + strings.Repeat("*/", strings.Count(d, "/")+1) + inner, "!**/" + inner[:1] + "*"}[r.Intn(4)]
+	out := []string{excl, "!" + sibling + "/keep", wild}
+	if r.Intn(3) == 0 {
+		out = []string{excl, "!" + sibling, wild}
+	}
+	_ = base
+	for k := r.Intn(2); k > 0; k-- {
+		out = append(out, genPattern(r))
+	}
+	return validOrNil(out)
 }
 
 // genAncestor derives a previously synchronized state from the tree: a random
@@ -317,13 +399,23 @@ func main() {
 	if cfg.Thorough() {
 		scale = 25
 	}
-	for i := 0; i < 1200*scale; i++ {
+	for i := 0; i < 1000*scale; i++ {
 		add(Case{K: "query", Raws: genPatterns(r, 5), Path: genPath(r), Dir: r.Intn(2) == 0}, "random")
 	}
 	for t := 0; t < 60*scale; t++ {
 		tr := igntree.Random(r, 4, 4, names)
-		for j := 0; j < 8; j++ {
-			c := Case{K: "scan", Raws: genPatterns(r, 5), Tree: tr, BetaSame: r.Intn(3) == 0}
+		for j := 0; j < 10; j++ {
+			var raws []string
+			switch {
+			case j >= 8:
+				raws = genPrefixSibling(r, tr)
+			case j >= 5:
+				raws = genReinclude(r, tr)
+			}
+			if raws == nil {
+				raws = genPatterns(r, 5)
+			}
+			c := Case{K: "scan", Raws: raws, Tree: tr, BetaSame: r.Intn(3) == 0}
 			if r.Intn(2) == 0 {
 				c.Anc = coretree.ToJ(genAncestor(r, tr, 3+r.Intn(8)))
 			}
